@@ -130,6 +130,25 @@ impl StateApplyManager {
             + complete_effs(self.h())
         }
     }
+    /// C01: what the snapshot stage + replay stage of a start-up send, from a manager that knows its two indexes
+    pub open spec fn snapshot_stage(&self, before: Seq<Eff>, after: Seq<Eff>) -> bool {
+        if self.snapshot_next_index == 0 { after == before + self.replay_effs() }
+        else {
+            after == before.push(sent(self.snapshot_manager.unwrap(), RaftSnapshotRequest::GetLastSnapshot)) + self.replay_effs()
+            || exists|p: Seq<char>, k: int| 0 <= k <= snap_recs(disk_at_open(p)).len() && after
+                == before.push(sent(self.snapshot_manager.unwrap(), RaftSnapshotRequest::GetLastSnapshot))
+                    + snap_effs_all(self.h(), #[trigger] snap_recs(disk_at_open(p)).take(k)) + self.replay_effs()
+        }
+    }
+    /// the two indexes a start-up takes from the index manager's answer: replay ends at the last APPLIED entry, and starts behind
+    /// the LAST snapshot of the catalogue
+    pub open spec fn indexes_from(&self, r: anyhow::Result<RaftIndexResponse>) -> (u64, u64) {
+        match r {
+            Ok(RaftIndexResponse::RaftIndexInfo { raft_index, last_applied_log }) =>
+                (if raft_index.snapshots@.len() > 0 { (raft_index.snapshots@.last().end_index + 1) as u64 } else { self.snapshot_next_index }, last_applied_log),
+            _ => (self.snapshot_next_index, self.last_applied_log),
+        }
+    }
     pub open spec fn fully_wired(&self) -> bool {
         self.data_wrap is Some && self.index_manager is Some && self.log_manager is Some && self.snapshot_manager is Some
             && self.last_applied_log < u64::MAX
